@@ -153,8 +153,8 @@ func runC07(c *fw.Ctx, idx int) fw.Result {
 	gen.Describe(r, qs)
 	gen.Describe(r, ts)
 	W := len(qs[0].Seq)
-	qText := gen.RenderFasta(qs, gen.PickLineWidth(r, W))
-	tText := gen.RenderFasta(ts, gen.PickLineWidth(r, W))
+	qText := noFinalNL(r, gen.RenderFasta(qs, gen.PickLineWidth(r, W)))
+	tText := noFinalNL(r, gen.RenderFasta(ts, gen.PickLineWidth(r, W)))
 	threads := []int{0, 1, 2, 16}[r.Intn(4)]
 	out, err := run.ClosestN(len(ts), -1.0, qText, tText, measure, true, threads)
 	res.Evals++
